@@ -5,5 +5,6 @@ CONSTANTS
   Only = ""
 INVARIANT GenParseAgree
 INVARIANT LayoutMonotone
+INVARIANT BuildParseRoundTrip
 INVARIANT DumpLayout
 CHECK_DEADLOCK FALSE
